@@ -166,7 +166,7 @@ def build(repo=None):
             ob["function"] = fn_label
             c = ob["clause"]
             if c[:3] in ("C04", "C08", "C09", "C12", "C16"):
-                ob["serves"] = [c[:3]] + (["C12"] if c[:3] == "C04" else [])
+                ob["serves"] = [c[:3]] + (["C12", "C13"] if c[:3] == "C04" else [])
                 if c.startswith("C12:no-label") or c.startswith("C16:"):
                     ob["serves"] = ["C12", "C16"]  # the '?' label protocol is both a restore obligation and the C16 mechanism
                 if c.startswith("C12:flatten"):
